@@ -22,21 +22,22 @@ MANIFEST = dict(
     category="proof",
     text="Machine-checked proof (Coq, partial), exact-arithmetic level, over the model of Quantity::full_simplify "
          "(heuristics 1-3 with is_multiple_of and the sort-key grouping) and full_simplify_with_registry with an "
-         "abstract registry (any candidate units, any tolerance tests): the simplified value denotes the same "
-         "physical magnitude (C05_preserves_partial, C05_preserves_registry_partial — under the hypothesis that the "
-         "group targets built by heuristic 3 have integer exponents), a value produced by an explicit conversion is "
-         "returned unchanged by both functions (C05_respects_conversion, any number type), and converting a "
-         "simplified result back restores the magnitude (C05_back). Closed under the global context. Validated by "
-         "correspondence only: preservation of the dimension vector, absence of the heuristic-3 unwrap panic, which "
-         "unit the registry picks, and that the three call sites (result display, print, string interpolation) "
-         "apply exactly this function.",
+         "abstract registry (any candidate units, any tolerance tests): full_simplify never panics, for any number type "
+         "(C05_no_panic, after the fix of finding C05-h3-unwrap-panic); the simplified value denotes the same physical "
+         "magnitude and, for non-zero values, has the same dimension vector (C05_preserves_partial; magnitude also "
+         "through the registry step, C05_preserves_registry_partial — both under the hypothesis that the group targets "
+         "built by heuristic 3 have integer exponents, which keeps sizes rational), a value produced by an explicit "
+         "conversion is returned unchanged by both functions (C05_respects_conversion, any number type), and "
+         "converting a simplified result back restores the magnitude (C05_back). Closed under the global context. "
+         "Validated by correspondence only: which unit the registry picks and that the three call sites (result "
+         "display, print, string interpolation) apply exactly this function.",
     design_ref="DESIGN.md §6 C05; design/qty.md",
     note="Trusted: Coq kernel + vm_compute; Qty/Model.v hand port; hook dump/translator; hooks raw_global and simplify; "
          "sort_unstable modelled by a stable sort (tie order of equal sort keys is not specified by Rust).",
     technique="Coq proof (partial) + model/implementation correspondence on random unit products",
 )
 
-THEOREMS = ["C05_preserves_partial", "C05_preserves_registry_partial", "C05_respects_conversion", "C05_back"]
+THEOREMS = ["C05_no_panic", "C05_preserves_partial", "C05_preserves_registry_partial", "C05_respects_conversion", "C05_back"]
 REL = 1e-9
 
 
@@ -98,6 +99,12 @@ def run(chk):
             continue
         v = rng.choice([1.0, 2.5, -3.0, 0.0, 1e-6, 4.2e7, rng.uniform(0.1, 100)])
         cases.append(dict(kind="random", v=v, u=u))
+    # registry candidates: products with a prefix on every factor, sizes from 1e-45 to 1e45 in base units
+    for _ in range(600 if quick else 6000):
+        u = gen.registry_product()
+        if u is None:
+            continue
+        cases.append(dict(kind="registry-product", v=rng.choice([1.0, 6.0, 2.5, -3.0, rng.uniform(0.1, 100)]), u=u))
     lines = []
     for c in cases:
         q = qtylib.rpn_q(qtylib.f2bits(c["v"]), c["u"])
@@ -253,7 +260,8 @@ def run(chk):
         "call_site_programs_checked": site_checked, "explicit_conversions_through_interpret": len(convs),
         "model_evaluations": len(items), "model_mismatches": len(mism), "model_order_only_differences": order_only,
         "model_not_compared_guard": len(oos), "panics_predicted_by_model": len(known_panics),
-        "oracle_failures": len(failing), "relative_tolerance": REL,
+        "oracle_failures": len(failing), "oracle_failure_kinds": dict(collections.Counter(c["kind"] for c, _ in failing)),
+        "relative_tolerance": REL,
         "samples": [{"value": cases[i]["v"], "unit": qtylib.show_unit(cases[i]["u"]), "implementation": cases[i]["obs"]}
                     for i in (0, len(cases) // 2, len(cases) - 1)],
     })
